@@ -494,7 +494,10 @@ class Walker:
                 if h.type is not None:
                     self.shape(h.type)
                 if h.name:
-                    self.store_name(h.name, s_whole(got))
+                    # a handler for everything (`except Exception as exc`, bare) may see an exception whose text
+                    # embeds any argument given to third-party code in the try body; a handler that names specific
+                    # classes receives library-authored text (assumption, see design/C12.md; validated with fakes)
+                    self.store_name(h.name, s_whole(got) if _broad_handler(h.type) else {})
                 self.stmts(h.body)
             self.stmts(s.orelse)
             self.stmts(s.finalbody)
@@ -1096,6 +1099,17 @@ def _module_const(mod, name):
             if isinstance(v, (tuple, list)) and all(isinstance(x, str) for x in v):
                 return list(v)
     return None
+
+
+def _broad_handler(t):
+    if t is None:
+        return True
+    elts = t.elts if isinstance(t, ast.Tuple) else [t]
+    for x in elts:
+        name = x.id if isinstance(x, ast.Name) else x.attr if isinstance(x, ast.Attribute) else ""
+        if name in ("Exception", "BaseException"):
+            return True
+    return False
 
 
 def _is_logger(e):
